@@ -385,19 +385,21 @@ Qed.
 
 (* ------------------------------------------------------------------ variable-length buckets *)
 
-(** candidates, when the second stage does not panic *)
+(** candidates *)
 Lemma read_var_files_ok b s e fs c : read_var_files b s e fs = Ok c ->
   c = flat_map (fun f => flat_map s_recs (scan_file (b_tf b) (b_reclen b) s e f)) fs.
 Proof.
   revert c; induction fs as [|f fs IH]; intros c H; cbn [read_var_files flat_map] in *.
   - now inversion H.
-  - destruct (read_var_file b s e f) as [a| |] eqn:Ea; cbn [bindR] in H; try discriminate.
+  - unfold read_var_file in H. cbn [bindR] in H.
     destruct (read_var_files b s e fs) as [r| |] eqn:Er; cbn [bindR] in H; try discriminate.
-    inversion H; subst c. rewrite (IH r eq_refl). f_equal.
-    unfold read_var_file in Ea. destruct (scan_file (b_tf b) (b_reclen b) s e f) as [|sl sls] eqn:Es.
-    + now inversion Ea.
-    + destruct (second_stage_buf (b_vrl b) (sl :: sls) (4 * sum_clen (sl :: sls)) 0); cbn [bindR] in Ea; try discriminate.
-      now inversion Ea.
+    inversion H; subst c. now rewrite (IH r eq_refl).
+Qed.
+
+Lemma read_var_files_total b s e fs : exists c, read_var_files b s e fs = Ok c.
+Proof.
+  induction fs as [|f fs [c IH]]; cbn [read_var_files]; [eexists; reflexivity|].
+  unfold read_var_file. cbn [bindR]. rewrite IH. cbn [bindR]. eexists; reflexivity.
 Qed.
 
 (** rows sorted by full-precision time *)
@@ -648,7 +650,7 @@ Theorem read_var_filter b s e :
 Proof.
   intros W V Hs He G. unfold guard_C11 in G. rewrite V in G.
   unfold read_var. destruct (var_candidates b (q_go s) (q_go e)) as [c| |] eqn:Ec; try discriminate.
-  apply andb_prop in G as [G L]. apply Z.leb_le in L.
+  rename G into L. apply Z.leb_le in L.
   cbn [bindR]. f_equal.
   unfold var_candidates in Ec. apply read_var_files_ok in Ec. rewrite (cand_eq b s e W Hs He) in Ec.
   destruct (bucket_rows b (selg b s e) W V) as [Srt Good]. cbv zeta in Srt, Good. rewrite <- Ec in Srt, Good.
@@ -658,7 +660,7 @@ Proof.
   assert (Fwf : Forall (wf_row plen) c) by (eapply Forall_impl; [|exact Good]; intros r [A _]; exact A).
   assert (Fsane : Forall (fun r => sane_row r = true) c) by (eapply Forall_impl; [|exact Good]; intros r [_ A]; exact A).
   rewrite Erl, (trim_range_refines plen _ _ c Fwf).
-  rewrite (trim_rows_filter _ _ c (sorted_tns_rows c Fsane Srt) G).
+  rewrite (trim_rows_filter _ _ c (sorted_tns_rows c Fsane Srt)).
   assert (Ef : filter (in_range_row (q_go s) (q_go e)) c = filter (in_range_var s e) c).
   { apply filter_ext_in. intros r Hr. rewrite Forall_forall in Fsane. now apply in_range_row_var; [| |apply Fsane]. }
   rewrite Ef.
@@ -678,13 +680,23 @@ Definition spec_C11 (b : bucket) (s e : qtime) : list byte :=
   if b_var b then enc_rows (filter (in_range_var s e) (var_rows_all b))
   else concat (map enc_frow (filter (in_range_fixed (b_tf b) s e) (fixed_rows_all b))).
 
+(** a sane upper bound is below MaxTime: Query.SetEnd leaves it alone *)
+Lemma clamp_end_sane e : sane_time e = true -> clamp_end (q_go e) = q_go e.
+Proof.
+  intros H. rewrite (q_go_sane e H). apply sane_time_spec in H as [Hs _].
+  unfold clamp_end, t_unix. cbn [g_ext]. unfold sec_lo, sec_hi, unixToInternal, maxSec in *.
+  replace (fst e + 62135596800 - 62135596800) with (fst e) by lia.
+  rewrite wrap_small by i64_small.
+  replace (9223371974719179007 <? fst e) with false by (symmetry; apply Z.ltb_ge; lia). reflexivity.
+Qed.
+
 Theorem exec_query_range b s e : in_domain_C11 b s e = true ->
   exec_query b (q_go s) (q_go e) = Ok (spec_C11 b s e).
 Proof.
   unfold in_domain_C11. rewrite !andb_true_iff. intros (((W & Hs) & He) & G).
   assert (Q : queryable_tf (b_tf b) =? b_tf b = true).
   { unfold wf_bucket in W. rewrite !andb_true_iff in W. tauto. }
-  unfold exec_query, read_bucket, spec_C11. rewrite Q.
+  unfold exec_query, read_bucket, spec_C11. rewrite Q, (clamp_end_sane e He).
   destruct (b_var b) eqn:V.
   - now apply read_var_filter.
   - now rewrite read_fixed_filter.
@@ -692,11 +704,12 @@ Qed.
 
 Lemma prop_C11_of_exec b s e : in_domain_C11 b s e = true -> prop_C11 b s e = true.
 Proof.
-  intros D. pose proof (exec_query_range b s e D) as H.
+  intros D. pose proof (exec_query_range b s e D) as H. pose proof D as D0.
   unfold in_domain_C11 in D. rewrite !andb_true_iff in D. destruct D as (((W & _) & _) & _).
   assert (Q : queryable_tf (b_tf b) =? b_tf b = true).
   { unfold wf_bucket in W. rewrite !andb_true_iff in W. tauto. }
-  unfold exec_query, read_bucket, spec_C11 in H. rewrite Q in H. unfold prop_C11.
+  unfold in_domain_C11 in D0. rewrite !andb_true_iff in D0. destruct D0 as (((_ & _) & He) & _).
+  unfold exec_query, read_bucket, spec_C11 in H. rewrite Q, (clamp_end_sane e He) in H. unfold prop_C11.
   destruct (b_var b).
   - rewrite H. apply bytes_eqb_eq. reflexivity.
   - inversion H as [H1]. apply bytes_eqb_eq. reflexivity.
